@@ -160,6 +160,18 @@ PROPS["C12"] = {
     "assumptions": ["'promptly' = by the first quiescent point after Close returned plus one simulated second"],
 }
 
+PROPS["C10"] = {
+    "pkg": "stk", "env": {"SIM_PROP": "C10"},
+    "legs": ["frag/sim", "mbapp/sim", "frag/frag/sim", "wl/mbapp/sim", "askmux-varint/mbapp/sim", "map/frag/sim", "mux-string/frag/sim", "frag/sim", "mbapp/sim"],
+    "runs": {"quick": 1800, "thorough": 120000}, "budget": {"quick": 240, "thorough": 2400},
+    "rule": "one run = the fragmenting swarm or the message-box swarm (and nestings) receiving from 2-4 sources, each with 1-3 concurrent senders of 1-4 messages of 0-13 fragments; the simulator is the inner transport: per-fragment loss, duplication, arbitrary delivery order across messages and sources, clock advances of up to 61 s between deliveries so that partial reassembly state is garbage-collected and re-created; inner MTU 40-200, workers 1-4; "
+            "inner datagrams are attributed to ledger messages by content to measure reach (reassembled out of order / with duplicate fragments / incomplete never delivered); non-trivial = a multi-fragment message was reassembled and a fault fired; distinct = distinct scheduler decision traces",
+    "components": TIER_A,
+    "level_text": "seeded exploration of fragment schedules and worker interleavings; every payload delivered by the fragmenting layer must be byte-identical to a ledger payload told to that node by the source it is attributed to (bodies are random, so a mixture, a truncation or a message with a missing fragment cannot match)",
+    "level_note": "trusted: instrumenter, scheduler, simulated network, ledger oracle",
+    "assumptions": ["honest senders only (adversarial fragments belong to C08)"],
+}
+
 NOT_APPLICABLE = {
     "C17": "pure functions of their input (key/peer-id marshal, parse, equality, fingerprint): no schedule, clock, fault or second party for a simulator to vary; see DESIGN.md §7",
 }
